@@ -216,6 +216,7 @@ static void audit_tables() {
   vf::distinct_enum(256);
 }
 
+#ifndef VF_FUZZ_TARGET
 int main(int argc, char** argv) {
   std::vector<vf::Stream> S;
   S.push_back({"table_audit", 1, 1, [](uint64_t, vf::Rng&) { audit_tables(); }, false});
@@ -352,3 +353,4 @@ int main(int argc, char** argv) {
                }});
   return vf::run(argc, argv, S);
 }
+#endif  // VF_FUZZ_TARGET
